@@ -159,6 +159,7 @@ def main():
     ap.add_argument("--replay")
     ap.add_argument("--keep", action="store_true")
     ap.add_argument("--no-evidence", action="store_true")
+    ap.add_argument("--tag", default="")
     a = ap.parse_args()
 
     if a.replay:
@@ -183,7 +184,7 @@ def main():
     print("VERIF_SEED=%d property=%s tier=%s engine=%s" % (seed, prop, tier, cfg["engine"]))
     sys.stdout.flush()
 
-    outdir = os.path.join(VERIF, "out", "%s-%s" % (prop, tier))
+    outdir = os.path.join(VERIF, "out", "%s-%s%s" % (prop, tier, a.tag))
     shutil.rmtree(outdir, ignore_errors=True)
     os.makedirs(outdir, exist_ok=True)
     builds = {}
